@@ -356,7 +356,7 @@ fn admit(op: Op, seen: &Seen, cfg: &EnumCfg) -> Option<Seen> {
     Some(n)
 }
 
-const PREFIX_LEVEL: usize = 2;
+const PREFIX_LEVEL: usize = 3;
 
 /// Calls `visit` for every history of exactly `cfg.depth` operations from `m`; the subtrees
 /// below level PREFIX_LEVEL are dealt round-robin to `of` parts.
@@ -1193,6 +1193,24 @@ fn child_main(a: &[String]) -> ! {
             c.aborted = false; // single history: nothing can leak into a later one
             c.finish(json!({"history": hist_tokens(&hist), "trace": trace}))
         }
+        Some("count") => {
+            // count DEPTH SYM MAXOBS FORGET  (model only; prints the size of a space)
+            let cfg = EnumCfg {
+                depth: num(1),
+                sym: num(2) == 1,
+                max_obs: num(3),
+                allow_forget: num(4) == 1,
+            };
+            let n = count_histories(
+                &Model::default(),
+                &Seen::default(),
+                cfg.depth,
+                &cfg,
+                &mut HashMap::new(),
+            );
+            println!("{n}");
+            std::process::exit(0)
+        }
         _ => bad_child_args(a),
     }
 }
@@ -1326,9 +1344,13 @@ fn parent_main() {
     // ---- the stated spaces --------------------------------------------------------------
     // (name, depth, symmetry-reduced, max observers)
     let unlimited = 99usize;
-    let main_spaces: Vec<(&str, usize, bool, usize)> = tier.pick(
-        vec![("all-operations", 5, false, unlimited)],
-        vec![("all-operations", 6, false, unlimited), ("canonical-up-to-renaming,at-most-2-appends", 7, true, 2)],
+    let mut main_spaces: Vec<(&str, usize, bool, usize)> = tier.pick(
+        vec![("all-operations", 4, false, unlimited), ("canonical-up-to-renaming", 5, true, unlimited)],
+        vec![
+            ("all-operations", 5, false, unlimited),
+            ("canonical-up-to-renaming", 6, true, unlimited),
+            ("canonical-up-to-renaming,at-most-2-appends", 7, true, 2),
+        ],
     );
     let forget_suffix_depth: usize = tier.pick(5, 7); // [attach X, forget] + every suffix, total length
     let forget_suffix_sym = tier.pick(false, true);
@@ -1341,12 +1363,22 @@ fn parent_main() {
     // 1. histories without forget
     let mut jobs: Vec<Vec<String>> = vec![];
     let mut expect_main = vec![];
+    // the short spaces are prefixes of the deep ones; they run on their own so that a failing
+    // shape is also reported with its shortest history
+    for d in 1..=3 {
+        main_spaces.push(("all-operations", d, false, unlimited));
+    }
+    main_spaces.sort_by_key(|m| std::cmp::Reverse(m.1));
+    let parts_of = |depth: usize| if depth <= 3 { 1 } else { procs };
+    let mut job_ranges = vec![];
     for (_, depth, sym, max_obs) in &main_spaces {
         let cfg = EnumCfg { depth: *depth, sym: *sym, max_obs: *max_obs, allow_forget: false };
         expect_main.push(count_histories(&Model::default(), &Seen::default(), cfg.depth, &cfg, &mut HashMap::new()));
-        for p in 0..procs {
-            jobs.push(vec![s("main"), s(depth), s(p), s(procs), s(*sym as u8), s(max_obs)]);
+        let first = jobs.len();
+        for p in 0..parts_of(*depth) {
+            jobs.push(vec![s("main"), s(depth), s(p), s(parts_of(*depth)), s(*sym as u8), s(max_obs)]);
         }
+        job_ranges.push(first..jobs.len());
     }
     // 2. [attach X, forget] + every suffix
     let fs_cfg = EnumCfg { depth: forget_suffix_depth - 2, sym: forget_suffix_sym, max_obs: unlimited, allow_forget: false };
@@ -1363,10 +1395,12 @@ fn parent_main() {
             jobs.push(vec![s("after-forget"), s(x), s(fs_cfg.depth), s(p), s(fs_parts), s(fs_cfg.sym as u8), s(fs_cfg.max_obs)]);
         }
     }
-    let n_main_jobs = main_spaces.len() * procs;
+    let n_main_jobs = job_ranges.last().map(|r| r.end).unwrap_or(0);
+    let t0 = std::time::Instant::now();
     let outs = run_jobs(&jobs, procs);
+    let wall_lockstep = t0.elapsed().as_secs_f64();
     for (k, (name, depth, sym, max_obs)) in main_spaces.iter().enumerate() {
-        let got = merge(&outs[k * procs..(k + 1) * procs], &mut tot, &mut rep);
+        let got = merge(&outs[job_ranges[k].clone()], &mut tot, &mut rep);
         if got != expect_main[k] {
             exhaustive = false;
         }
@@ -1393,7 +1427,9 @@ fn parent_main() {
             true
         });
     }
+    let t0 = std::time::Instant::now();
     let outs_fa = run_jobs(&fa_jobs, cores);
+    let wall_fa = t0.elapsed().as_secs_f64();
     let got_fa = merge(&outs_fa, &mut tot, &mut rep);
     if got_fa != fa_jobs.len() as u64 {
         exhaustive = false;
@@ -1428,6 +1464,11 @@ fn parent_main() {
     rep.set("threads", 2u64);
     rep.set("runtimes", 2u64);
     rep.set("exhaustive", exhaustive);
+    rep.set(
+        "phase_wall_s",
+        json!({"lock-step children (no-forget spaces + after-forget)": (wall_lockstep * 10.0).round() / 10.0,
+               "one process per forget history": (wall_fa * 10.0).round() / 10.0}),
+    );
     rep.set("child_processes", (jobs.len() + fa_jobs.len() + cur_jobs.len()) as u64);
     rep.set("children_stopped_early_because_the_global_was_not_back_at_base", tot.aborted);
     rep.set("spaces", J::Array(spaces_json));
